@@ -1,7 +1,52 @@
 package props
 
-import "sidever/internal/ev"
+import (
+	"fmt"
+
+	"sidever/internal/ev"
+	"sidever/internal/pipe"
+)
 
 // placeholders filled in by the pipeline / intake modules
-func handlerRefusesDeactivated(c *ev.Ctx) {}
+func handlerRefusesDeactivated(c *ev.Ctx) {
+	// C04 (c): behaviours in which the client keeps submitting after a deactivate; the real DocumentHandler (default
+	// decorator) must refuse exactly when the specification's resolution of the DID is deactivated, leaving queue and
+	// unpublished store untouched - checked by trace validation against Pipeline.tla.
+	n := 60
+	if c.Tier == "thorough" {
+		n = 1500
+	}
+	after := func(h []pipe.Step) bool {
+		dead := map[int]bool{}
+		for _, s := range h {
+			if s.A == "Submit" {
+				if dead[s.D] {
+					return true
+				}
+				if s.K == "D" {
+					dead[s.D] = true
+				}
+			}
+		}
+		return false
+	}
+	for _, unpub := range []bool{true, false} {
+		cfg := "MC_Pipeline_valid_unpub.cfg"
+		if !unpub {
+			cfg = "MC_Pipeline_valid_nounpub.cfg"
+		}
+		var sel [][]pipe.Step
+		for _, h := range pipelineBehaviours(c, cfg, n*4, c.Seed+303) {
+			if after(h) {
+				sel = append(sel, h)
+			}
+		}
+		if len(sel) > n {
+			sel = sel[:n]
+		}
+		before := c.Cov.DistinctNontrivial
+		runPipelineBehaviours(c, unpub, sel, after, "intake-after-deactivate-trace-rejected")
+		c.Cov.Extra[fmt.Sprintf("handler_behaviours_with_submission_after_deactivate_unpub_%v", unpub)] = c.Cov.DistinctNontrivial - before
+	}
+}
 func intakeRecommit(c *ev.Ctx)            {}
